@@ -23,6 +23,10 @@ pub struct Case {
     pub workers: u8,
     pub replica: bool,
     pub clients: Vec<Vec<Txn>>,
+    /// health-check fault: (client index, transaction index, delay ms) — before that transaction the
+    /// primary's next health-check reply is delayed beyond healthcheck_timeout
+    #[serde(default)]
+    pub hc: Option<(u8, u8, u16)>,
 }
 
 pub struct WirePart;
@@ -35,13 +39,15 @@ pub fn case_strategy() -> BoxedStrategy<Case> {
         prop_oneof![Just(1u8), Just(2u8), Just(4u8)],
         prop::bool::weighted(0.3),
         prop::collection::vec(prop::collection::vec(prog::txn_strategy(), 1..4), 2..6),
+        prop::option::weighted(0.3, (0u8..6, 0u8..3, 120u16..300)),
     )
-        .prop_map(|(pool_size, session_mode, cache, workers, replica, clients)| Case {
+        .prop_map(|(pool_size, session_mode, cache, workers, replica, clients, hc)| Case {
             pool_size,
             session_mode,
             cache: if session_mode { 0 } else { cache },
             workers,
             replica,
+            hc: hc.map(|(c, t, d)| (c % clients.len() as u8, t % clients[(c as usize) % clients.len()].len() as u8, d)),
             clients,
         })
         .boxed()
@@ -98,6 +104,11 @@ pub struct ClientRun {
 }
 
 pub async fn run_clients(env: &Env, clients: &[Vec<Txn>], terminate: bool) -> Vec<ClientRun> {
+    run_clients_hc(env, clients, terminate, None).await
+}
+
+pub async fn run_clients_hc(env: &Env, clients: &[Vec<Txn>], terminate: bool, hc: Option<(u8, u8, u16)>) -> Vec<ClientRun> {
+    let own_delay = env.mocks[0].own_delay_handle();
     let t0 = std::time::Instant::now();
     let mut handles = vec![];
     for (i, prog) in clients.iter().enumerate() {
@@ -105,6 +116,7 @@ pub async fn run_clients(env: &Env, clients: &[Vec<Txn>], terminate: bool) -> Ve
         let prog = prog.clone();
         let cli = env.client(id, "u", "db", "pw", &[]).await;
         let shared = env.shared.clone();
+        let own_delay = own_delay.clone();
         handles.push(tokio::spawn(async move {
             let mut cli = match cli {
                 Ok(c) => c,
@@ -114,6 +126,12 @@ pub async fn run_clients(env: &Env, clients: &[Vec<Txn>], terminate: bool) -> Ve
             'outer: for (ti, txn) in prog.iter().enumerate() {
                 if txn.pre_delay_ms > 0 {
                     tokio::time::sleep(std::time::Duration::from_millis(txn.pre_delay_ms as u64)).await;
+                }
+                if let Some((hc_c, hc_t, hc_d)) = hc {
+                    if hc_c as usize == i && hc_t as usize == ti {
+                        own_delay.store(hc_d as u64, std::sync::atomic::Ordering::SeqCst);
+                        shared.ctl("slow next health check");
+                    }
                 }
                 for r in &txn.reqs {
                     let x = prog::run_req(&mut cli, r, t0).await;
@@ -153,6 +171,22 @@ pub fn tag_conns(log: &[Event]) -> HashMap<Tag, (usize, u64)> {
         }
     }
     m
+}
+
+/// tags whose messages (statement, CopyData, Sync of the batch) were seen on more than one backend connection
+pub fn split_requests(log: &[Event]) -> Vec<(Tag, Vec<u64>)> {
+    let mut m: BTreeMap<Tag, Vec<u64>> = BTreeMap::new();
+    for e in log {
+        if let EvKind::Rx { tags, .. } = &e.kind {
+            for t in tags {
+                let v = m.entry(*t).or_default();
+                if !v.contains(&e.conn) {
+                    v.push(e.conn);
+                }
+            }
+        }
+    }
+    m.into_iter().filter(|(_, v)| v.len() > 1).collect()
 }
 
 /// I1: between consecutive tagged messages of different clients on one backend connection the
@@ -206,14 +240,23 @@ async fn run_case(c: &Case, ctx: &mut WorkerCtx) -> Outcome {
     if c.replica {
         specs.push(BackendSpec::trust("127.0.0.2", "r0"));
     }
-    let env = match Env::start(ctx, &specs, |m| base_config(m, c.pool_size, c.session_mode, c.cache, c.workers)).await {
+    let env = match Env::start(ctx, &specs, |m| {
+        let mut cfg = base_config(m, c.pool_size, c.session_mode, c.cache, c.workers);
+        if c.hc.is_some() {
+            cfg.set_general("healthcheck_delay", "0");
+            cfg.set_general("healthcheck_timeout", "60");
+        }
+        cfg
+    })
+    .await
+    {
         Ok(e) => e,
         Err(e) => {
             o.inconclusive = Some(e);
             return o;
         }
     };
-    let runs = run_clients(&env, &c.clients, true).await;
+    let runs = run_clients_hc(&env, &c.clients, true, c.hc).await;
     let log = env.log();
     let stderr_tail = env.pg.stderr_tail(1500);
     env.finish().await;
@@ -222,7 +265,22 @@ async fn run_case(c: &Case, ctx: &mut WorkerCtx) -> Outcome {
     if c.cache > 0 {
         o.label("cache");
     }
+    if c.hc.is_some() {
+        o.label("healthcheck_fault");
+    }
     let tconn = tag_conns(&log);
+    // history invariants first: they do not depend on every client having been answered
+    if let Some((sig, detail)) = check_exclusive(&log, c.session_mode) {
+        o.fail(&sig, detail);
+        return o;
+    }
+    if let Some((t, conns)) = split_requests(&log).into_iter().next() {
+        o.fail(
+            "request-split-across-connections",
+            format!("messages of one request ({}) were received on several backend connections {:?}", t.short(), conns),
+        );
+        return o;
+    }
     let mut intervals: Vec<(u32, u64, u64)> = vec![];
     for r in &runs {
         if let Some(e) = &r.connect_error {
@@ -230,7 +288,13 @@ async fn run_case(c: &Case, ctx: &mut WorkerCtx) -> Outcome {
             return o;
         }
         let mut txn_conn: BTreeMap<usize, HashSet<(usize, u64)>> = BTreeMap::new();
+        let mut pool_error_txns: HashSet<usize> = HashSet::new();
         for (ti, x) in &r.xs {
+            if x.reply.iter().any(|m| m.code == b'E' && proto::error_code(&m.body) == "58000") {
+                // a pooler-generated error (e.g. failed health check) legitimately ends this transaction's affinity
+                pool_error_txns.insert(if c.session_mode { 0 } else { *ti });
+                o.label("pooler_error_reply");
+            }
             intervals.push((r.id, x.t_send_us, x.t_done_us));
             o.sub_evaluations += 1;
             if !matches!(x.end, crate::cli::ReadEnd::Ready(_)) {
@@ -269,7 +333,7 @@ async fn run_case(c: &Case, ctx: &mut WorkerCtx) -> Outcome {
         }
         // I2
         for (ti, conns) in &txn_conn {
-            if conns.len() > 1 {
+            if conns.len() > 1 && !pool_error_txns.contains(ti) {
                 o.fail(
                     "transaction-split-across-connections",
                     format!("client c{} transaction {} executed on several backend connections {:?}", r.id, ti, conns),
@@ -277,10 +341,6 @@ async fn run_case(c: &Case, ctx: &mut WorkerCtx) -> Outcome {
                 return o;
             }
         }
-    }
-    if let Some((sig, detail)) = check_exclusive(&log, c.session_mode) {
-        o.fail(&sig, detail);
-        return o;
     }
     // non-triviality
     let mut overlap = false;
